@@ -24,6 +24,8 @@ class Case:
         parts = ["ctor=" + c["ctor"], "q=" + enc(c.get("q_raw", c["q"]))]
         if self.meta.get("direct"):
             parts.append("direct=1")
+        if self.meta.get("raw"):
+            parts.append("raw=1")
         if c["ctor"] == "generic":
             parts.append("p=" + (enc(c["p"]) if c.get("p") else "-"))
             parts.append("hs=" + (enc_list(c["hs"]) if c.get("hs") else "%n"))
@@ -420,13 +422,21 @@ def pick_path(rnd, ents):
 
 MUTATORS = ["create", "openwrite", "mkdir", "mkdirall", "remove", "removeall", "rename", "symlink",
             "chmod", "chown", "lchown", "chtimes"]
-OPEN_FLAGS = [1, 2, 0x41, 0x42, 0x241, 0x242, 0x401, 0x441, 0xC1, 0x201]
+OPEN_FLAGS = [1, 2, 0x41, 0x42, 0x241, 0x242, 0x401, 0x441, 0xC1, 0x201, 0x200, 0x40, 0xC0, 0x240, 0x400, 0x202]
+
+
+ORIG = {}   # view path -> (perm, uid, gid) of the initial entry (filled by gen_history)
 
 
 def gen_op(rnd, ents, kinds=None, allow_force=False):
     kinds = kinds or MUTATORS
     k = rnd.choice(kinds)
-    p = spell(rnd, pick_path(rnd, ents))
+    p0 = pick_path(rnd, ents)
+    p = spell(rnd, p0)
+    if k == "chmod" and p0 in ORIG and rnd.random() < 0.4:
+        return ("chmod", p, "%o" % ORIG[p0][0])      # back to the original mode
+    if k in ("chown", "lchown") and p0 in ORIG and rnd.random() < 0.3:
+        return (k, p, ORIG[p0][1], ORIG[p0][2])
     if k == "create":
         return ("create", p, rnd.choice(CONTENTS))
     if k == "openwrite":
@@ -478,6 +488,11 @@ def apply_guess(ents, op):
 def gen_history(rnd, cfg, nops=None, kinds=None, with_rollback=True, read_ops=0.0):
     inits, ents = gen_tree(rnd, cfg)
     ents = dict(ents)
+    ORIG.clear()
+    pfx = view_prefix(cfg)
+    for i_ in inits:
+        if i_[0] in ("D", "F") and i_[1].startswith(pfx or b"/"):
+            ORIG[(i_[1][len(pfx):] or b"/")] = (i_[2], i_[3], i_[4])
     n = nops if nops is not None else rnd.randint(1, 12)
     ops = [("dump",)]
     for _ in range(n):
